@@ -65,12 +65,13 @@ class TypeItem:
 
 
 class Unit:
-    def __init__(self, name, template, fns=(), types=(), props=(), features=()):
+    def __init__(self, name, template, fns=(), types=(), props=(), features=(), raw=None):
         self.name, self.template = name, template
         self.fns = {f.key: f for f in fns}
         self.types = {t.name: t for t in types}
         self.props = tuple(props)
         self.features = tuple(features)
+        self.raw = raw or {}
 
 
 class Generated:
@@ -477,6 +478,10 @@ def generate(unit, canary=False, tier='quick'):
         m = re.match(r'^\s*//@FN (\S+)\s*$', ln)
         if m:
             gen_fn(unit.fns[m.group(1)], g, canary)
+            continue
+        m = re.match(r'^\s*//@RAW (\S+)\s*$', ln)
+        if m:
+            unit.raw[m.group(1)](g, canary)
             continue
         m = re.match(r'^\s*//@TYPE (\S+)\s*$', ln)
         if m:
